@@ -62,7 +62,7 @@ def time_limit(seconds):
         signal.signal(signal.SIGALRM, old)
 
 
-OP_TIME_LIMIT = 5.0
+OP_TIME_LIMIT = 3.0
 
 
 def win(size):
@@ -886,6 +886,12 @@ class CmRun:
             out = "err:valueError"
         except AttributeError:
             out = "err:attrError"
+        except (HistoryTimeout, MemoryError):
+            raise
+        except Exception as e:
+            out = "crash:" + type(e).__name__
+            if self.alarm is None:
+                self.alarm = "%r raised %s" % (list(op), type(e).__name__)
         self.outs.append(out)
         return out
 
@@ -988,6 +994,10 @@ def run_cm_history(table, ops):
         nontrivial += out.startswith("g:") or out.startswith("f:")
         if op[0] == "X":
             all_entries += [e[0] for e in op[2]]
+        if out.startswith("crash"):
+            # the manager may now hold an unbounded table: do not touch it any more
+            return {"result": " ".join(run.outs) + " # crashed", "nontrivial": nontrivial,
+                    "alarm": alarm or "op %d %r: %s" % (k, list(op), run.alarm or out)}
         if alarm is None:
             msg = run.alarm or cm_oracle(run, all_entries)
             if msg:
@@ -1008,6 +1018,8 @@ def work_chunk(args):
     rng = random.Random(seed)
     out = []
     for _ in range(count):
+        if sum(1 for r in out if r["alarm"]) >= 5:
+            break           # enough failing inputs from this chunk (each may have cost a time-out)
         if kind == "bus":
             aw, dw, ops, _run = gen_bus_history(rng)
             res = run_bus_history(aw, dw, ops, known, rng=rng)
